@@ -201,11 +201,10 @@ class LoopParser(SubParser):
         return self.next_token()
 
     def _assignable(self, context_stack) -> bool:
-        # At the top level a loop's variable is a global, and naming it like
-        # a macro would be an assignment to that constant.
-        if (not context_stack.in_routine() and
-                context_stack.has_symbol_typed(
-                    str(self.current_token), SymbolType.MACRO)):
+        # Naming a loop's variable like a macro would be an assignment to
+        # that constant - unless a parameter of that name hides the macro.
+        if context_stack.has_symbol_typed(
+                str(self.current_token), SymbolType.MACRO):
             return self.token_error('Attempt to assign to constant "{}"')
         return True
 
